@@ -77,6 +77,14 @@ func (c *Ctx) doCallCommon(st *State, fr *Frame, ins ssa.Instruction, call *ssa.
 				return c.callStatic(st, fr, ins, f, nil, sig, res, append([]Value{payload}, args...))
 			}
 		}
+		// declared dispatch: the receiver must have the declared dynamic type
+		if dyn, ok := c.dispatch[c.ifaceName(call)]; ok {
+			if f := c.Prog.LookupMethod(dyn, call.Method.Pkg(), call.Method.Name()); f != nil {
+				c.Oblige(st, fr, ins, "dispatch", "", c.TagIs(recv, dyn), "receiver of "+call.Method.Name()+" has dynamic type "+c.shortType(dyn))
+				payload := c.Unbox(st, recv, dyn)
+				return c.callStatic(st, fr, ins, f, nil, sig, res, append([]Value{payload}, args...))
+			}
+		}
 		// single implementation inside the module
 		if f, dyn := c.singleImpl(call); f != nil {
 			st.Assume(c.TagIs(recv, dyn))
@@ -390,6 +398,15 @@ func (c *Ctx) applyContract(st *State, fr *Frame, ins ssa.Instruction, ct *Contr
 		}
 		c.Oblige(st, fr, ins, "pre", label, t, short+" requires "+r.Text)
 	}
+	if ct.Decreases != nil && c.cur != nil && c.cur.contract != nil && c.cur.contract.Decreases != nil && c.sameRecGroup(c.cur.contract, ct, f) {
+		m, err := c.evalSpec(env, ct.Decreases.Expr)
+		if err != nil {
+			c.Errorf("CONTRACT-ERROR %s: %v", ct.Decreases.Line, err)
+		} else if c.cur.entryMeasure.S != "" {
+			c.Oblige(st, fr, ins, "decreases", "", T(SBool, "(and (<= 0 %s) (< %s %s))", m.t.S, m.t.S, c.cur.entryMeasure.S),
+				"recursive call decreases the measure "+ct.Decreases.Text+" (termination)")
+		}
+	}
 	if held := ct.Opts["holds"]; held != "" {
 		e, err := ParseSpecExpr(held)
 		if err == nil {
@@ -432,8 +449,12 @@ func (c *Ctx) havocForContract(st *State, fr *Frame, env *specEnv, ct *Contract,
 		if f != nil && len(f.Blocks) > 0 {
 			ws := c.funcSummary(f, 0)
 			cp := &writeSummary{top: ws.top, allocs: ws.allocs, fams: map[string]*famWrite{}}
-			for k := range ws.fams {
-				cp.all(k)
+			for k, fw := range ws.fams {
+				if fw.freshOnly && !fw.all && len(fw.bases) == 0 {
+					cp.get(k).freshOnly = true
+				} else {
+					cp.all(k)
+				}
 			}
 			c.applyHavoc(st, fr, cp, nil)
 			return
@@ -466,6 +487,30 @@ func (c *Ctx) havocItem(st *State, env *specEnv, item string) error {
 		return nil
 	case strings.HasPrefix(item, "fam "):
 		c.HavocFam(st, strings.TrimSpace(item[4:]))
+		return nil
+	case strings.HasPrefix(item, "fields "):
+		t, err := c.resolveType(env.pkg, strings.TrimSpace(item[7:]))
+		if err != nil {
+			return err
+		}
+		sty, ok := t.Underlying().(*types.Struct)
+		if !ok {
+			return fmt.Errorf("not a struct type")
+		}
+		for i := 0; i < sty.NumFields(); i++ {
+			fam, sort := c.famField(t, i)
+			c.Arr(st, fam, sort)
+			c.HavocFam(st, fam)
+		}
+		return nil
+	case strings.HasPrefix(item, "elems "):
+		t, err := c.resolveType(env.pkg, strings.TrimSpace(item[6:]))
+		if err != nil {
+			return err
+		}
+		fam, sort := c.famElem(t)
+		c.Arr(st, fam, sort)
+		c.HavocFam(st, fam)
 		return nil
 	case strings.HasPrefix(item, "map "):
 		e, err := ParseSpecExpr(strings.TrimSpace(item[4:]))
@@ -634,6 +679,10 @@ func (c *Ctx) doBuiltin(st *State, fr *Frame, ins ssa.Instruction, b *ssa.Builti
 		n := c.FreshConst(st, "copied", SInt)
 		st.Assume(T(SBool, "(and (>= %s 0) (<= %s (sl_len %s)))", n.S, n.S, dst.S))
 		return set(n)
+	case "ssa:wrapnilchk":
+		p := c.toTerm(st, args[0])
+		c.Oblige(st, fr, ins, "nopanic", "nil-receiver", Not(Eq(p, IntLit(0))), "value method called through a nil pointer")
+		return set(p)
 	case "print", "println":
 		return set(Tuple{})
 	case "recover":
@@ -690,10 +739,10 @@ func (c *Ctx) doAppend(st *State, fr *Frame, ins ssa.Instruction, call *ssa.Call
 	resOff := c.Name(st, "roff", Ite(inplace, T(SInt, "(sl_off %s)", s.S), IntLit(0)))
 	q := c.Reg.Fresh("q")
 	// old elements are preserved at their (possibly relocated) positions
-	st.Assume(T(SBool, "(forall ((%s Int)) (=> (and (<= 0 %s) (< %s (sl_len %s))) (= (select %s (+ %s %s)) (select (select %s (sl_arr %s)) (+ (sl_off %s) %s)))))",
+	st.Assume(T(SBool, "(forall ((%s Int)) (=> (and (<= 0 %s) (< %s (sl_len %s))) (= (select %s (+ %s %s)) (select (select %s (sl_arr %s)) (sidx %s %s)))))",
 		q, q, q, s.S, content.S, resOff.S, q, arr.S, s.S, s.S, q))
 	// appended elements
-	st.Assume(T(SBool, "(forall ((%s Int)) (=> (and (<= 0 %s) (< %s %s)) (= (select %s (+ %s (sl_len %s) %s)) (select (select %s (sl_arr %s)) (+ (sl_off %s) %s)))))",
+	st.Assume(T(SBool, "(forall ((%s Int)) (=> (and (<= 0 %s) (< %s %s)) (= (select %s (+ %s (sl_len %s) %s)) (select (select %s (sl_arr %s)) (sidx %s %s)))))",
 		q, q, q, n.S, content.S, resOff.S, s.S, q, arr.S, add.S, add.S, q))
 	// in place: every other position of the shared array is untouched
 	st.Assume(Implies(inplace, T(SBool, "(forall ((%s Int)) (=> (or (< %s (+ (sl_off %s) (sl_len %s))) (>= %s (+ (sl_off %s) (sl_len %s) %s))) (= (select %s %s) (select (select %s (sl_arr %s)) %s))))",
@@ -1039,4 +1088,13 @@ func (c *Ctx) havocGuardedOf(st *State, obj Term, ptrT types.Type, lockField str
 func (c *Ctx) assumeGlobals(st *State, fn *ssa.Function) {
 	// package-level variables: initial values are given by the package initialiser; they
 	// are materialised lazily by init-symbolic execution (see globals.go)
+}
+
+// sameRecGroup: may a call from the function under verification to f be part of a recursion?
+func (c *Ctx) sameRecGroup(cur, callee *Contract, f *ssa.Function) bool {
+	if f != nil && c.cur.fn == f {
+		return true
+	}
+	g1, g2 := cur.Opts["recgroup"], callee.Opts["recgroup"]
+	return g1 != "" && g1 == g2
 }
